@@ -326,7 +326,7 @@ def run_session(scenario, chunks, inputrc="", rows=24, cols=80, step_timeout=4.0
             for ev in new:
                 if ev["ev"] == "wait":
                     pending_wait = True
-                    rec = {"n": ev["n"], "snap": ev}
+                    rec = {"n": ev["n"], "snap": ev, "nq": s.nq}
                     if keep_output:
                         rec["out"] = s.out_since
                         rec["screen"] = s.vt.screen()
